@@ -52,6 +52,12 @@ CHECKS = {
    text="Values are constructed relative to the grid (multiples, midpoints, +-1ns, cell ends) at the type limits, around zero and uniformly, for Timestamp, Time, DateTime (years <= 0 over-weighted), SignedDuration, Offset and Zoned (around every zone's transitions, real day lengths); all nine modes; legal divisors and illegal increments. Results, errors and increment legality are compared with an exact i128 oracle.",
    note="Trusted: wide.rs round_to (nine modes from their definitions), refcal/reftz. Hour increments other than 1 for SignedDuration/Offset are not settled by the docs: either outcome accepted. Non-contiguous civil days (fold straddling midnight) are not judged for day rounding.",
    design="DESIGN.md section 3 C10"),
+ "C12": dict(
+   technique="model-based proptest: Span operation histories against a (magnitudes, sign) model with the documented sign rule; SignedDuration ops against one i128 nanosecond count; float constructors against the exact decomposition of the IEEE value",
+   category="exploration",
+   text="Histories of try-setters (values in, at and just over each limit), negate, abs and checked_mul are interpreted step by step against the model; SignedDuration add/sub/mul/div/neg/abs/saturating/views/constructors and conversions to and from Span and std Duration are compared with exact i128 arithmetic, overflow reported exactly when unrepresentable; float constructors on raw bit patterns and boundary values.",
+   note="Stated tolerances: +-1ns for f64 constructors (round-to-nearest implied by the rustdoc example), +-64ns for f32 (documented precision loss), 4e-16 relative for float views. SignedDuration::new inputs that are documented to panic are not called.",
+   design="DESIGN.md section 3 C12"),
  "C14": dict(
    technique="model-based differential testing of the following/preceding iterators against the reference transition list (explicit + rule-generated), bounded pulls and to-exhaustion runs under a step cap; structured starts around every hand-over + proptest",
    category="exploration",
